@@ -2,7 +2,7 @@
 # usage: seedconfirm.sh <ID> [pkg patterns for the baseline comparison ...]
 # Confirms a seeded change in its scratch worktree /tmp/seed_<ID>: builds, the demo fails with the
 # change and passes without it, and the stable baseline tests of the given packages still pass.
-ID=$1; shift; W=/tmp/seed_$ID; S=$W/_seed
+ID=$1; shift; W=/tmp/${SEEDPFX:-seed}_$ID; S=$W/_seed
 export GOFLAGS=-mod=mod GOPROXY=off
 cd $W || exit 2
 git apply -R --check $S/patch.diff 2>/dev/null || { echo "patch is not the applied state"; git status --short | head; }
